@@ -38,6 +38,10 @@ def families(maxk):
     # (1 p 2 q 3 e 4 x 5 a 6 b 7 c; S=8 A=9 B=10)
     out.append(G(8, 11, [(8, [1, 3, 4]), (8, [2, 3, 4]), (8, [1, 9, 5, 6]), (8, [1, 10, 5, 7]), (8, [2, 9, 5, 7]), (8, [2, 10, 5, 6]), (9, [3]), (10, [3])], 2,
                  "equal-rows-opposite-automata-k2"))
+    # a conflict that two tokens resolve on one next-terminal but not on another (1 a 2 b 3 c 4 x 5 y 6 e; S=7 E=8 F=9), in both orders of the
+    # terminals: not lalr(2) - the compiler has to report it; if it compiles, the parser has to accept exactly the language
+    out.append(G(7, 10, [(7, [8, 1, 2, 4]), (7, [9, 1, 2, 5]), (7, [8, 3, 4]), (7, [9, 3, 5]), (8, [6]), (9, [6])], 2, "partly-resolvable-last-k2"))
+    out.append(G(7, 10, [(7, [8, 3, 2, 4]), (7, [9, 3, 2, 5]), (7, [8, 1, 4]), (7, [9, 1, 5]), (8, [6]), (9, [6])], 2, "partly-resolvable-first-k2"))
     return out
 
 
